@@ -152,6 +152,8 @@ type KDC struct {
 	Perturb func(r *Reply)
 	// ForceError, when non-zero, makes every request answer this KRB-ERROR code.
 	ForceError int32
+	// ForceErrorWhen, if set, restricts ForceError to the requests for which it returns true.
+	ForceErrorWhen func(req *kmsg.KDCReq) bool
 	reqs       []*ReqRecord
 	issues     []*Issue
 	serial     int
@@ -264,7 +266,7 @@ func (k *KDC) Handle(raw []byte, transport, endpoint string) []byte {
 	}
 	rec.Req = &req
 	var rp *Reply
-	if k.ForceError != 0 {
+	if k.ForceError != 0 && (k.ForceErrorWhen == nil || k.ForceErrorWhen(&req)) {
 		sn := kmsg.N(2, "krbtgt", req.Body.Realm)
 		if req.Body.SName != nil {
 			sn = *req.Body.SName
